@@ -409,40 +409,49 @@ theorem normComps_shape (isAbs : Bool) (comps : List String) :
   refine ⟨ups, names.reverse, ?_, fun n hm => hn n (List.mem_reverse.mp hm), ha⟩
   simp [normComps, hs]
 
-/-- **Containment.** A path that the datastore accepts has no `..`, empty or `.` component anywhere:
-joined to the root it names a location below the root, whatever strings went into it. -/
-theorem accepted_is_contained (run : String) (dirs files : List String) (p : List String)
-    (h : place run dirs files = .ok p) : ∀ c ∈ p, c ≠ ".." ∧ c ≠ "" ∧ c ≠ "." := by
+/-- **Containment.** A placement that the datastore accepts is *literally* the root followed by
+components none of which is `..`, `.` or empty — whatever strings went into the run, data-ID and
+dataset-type fields, and also when `..` components step out of the root and back in. -/
+theorem accepted_is_contained (root : List String) (run : String) (dirs files : List String) (rest : List String)
+    (h : place root run dirs files = .ok rest) :
+    normComps true (root ++ format run dirs files) = root ++ rest ∧ ∀ c ∈ rest, c ≠ ".." ∧ c ≠ "" ∧ c ≠ "." := by
   unfold place at h
   simp only at h
   split at h
+  · rename_i hpre
+    injection h with h
+    obtain ⟨t, ht⟩ := List.isPrefixOf_iff_prefix.mp hpre
+    obtain ⟨ups, names, he, hn, hz⟩ := normComps_shape true (root ++ format run dirs files)
+    have hu : ups = 0 := hz rfl
+    subst hu
+    simp only [List.replicate_zero, List.nil_append] at he
+    have hrest : rest = t := by
+      rw [← h, ← ht]; simp
+    subst hrest
+    refine ⟨ht.symm, ?_⟩
+    intro c hc
+    apply hn c
+    rw [← he, ← ht]
+    exact List.mem_append_right _ hc
   · cases h
-  rename_i hesc
-  injection h with h
-  subst h
-  unfold format at hesc ⊢
-  simp only at hesc ⊢
-  generalize hout : sanitize true run ++ "/" ++ "/".intercalate (List.map (sanitize false) dirs) ++ "/" ++
-      (("_".intercalate (List.map (sanitize false) (files ++ [run]))).replace "." "_").replace "#" "HASH" = out at hesc ⊢
-  obtain ⟨ups, names, he, hn, _⟩ := normComps_shape (out.startsWith "/") (out.splitOn "/")
-  rw [he] at hesc ⊢
-  cases ups with
-  | zero => simpa using hn
-  | succ k => simp [escapes, List.replicate_succ] at hesc
 
-/-- …and a refusal happens only for a path that really does leave the root. -/
-theorem refused_escapes (run : String) (dirs files : List String)
-    (h : place run dirs files = .error ()) : (format run dirs files).head? = some ".." := by
+/-- …and a refusal happens only when the normalised location is not below the root. -/
+theorem refused_outside (root : List String) (run : String) (dirs files : List String)
+    (h : place root run dirs files = .error ()) :
+    ¬ root <+: normComps true (root ++ format run dirs files) := by
   unfold place at h
   simp only at h
   split at h
-  · rename_i hesc; simpa [escapes] using hesc
   · cases h
+  · rename_i hpre
+    intro hc
+    exact hpre (List.isPrefixOf_iff_prefix.mpr hc)
 
 /-! Non-vacuity on components (string *operations* do not reduce in the kernel; whole-string cases
 are exercised by the correspondence). -/
 example : normComps false ["a", "..", "..", "b", "", ".", "f"] = ["..", "b", "f"] := by decide
-example : escapes (normComps false ["..", "dt", "f"]) = true := by decide
+example : normComps true (["tmp", "repo"] ++ ["..", "repo", "dt", "f"]) = ["tmp", "repo", "dt", "f"] := by decide
+example : normComps true (["tmp", "repo"] ++ ["..", "repo2", "dt", "f"]) = ["tmp", "repo2", "dt", "f"] := by decide
 example : normComps true ["", "..", "a", "b", "..", "f"] = ["a", "f"] := by decide
 
 end C09.Path
